@@ -351,6 +351,19 @@ class ComponentLevel2( ComponentLevel1 ):
                 nested_calls.add( u )
               return
 
+            # A function that assigns signals with <<= cannot be called by an
+            # update block (the value would never be committed), nor one that
+            # uses @= by an update_ff block (the flip would revert it)
+            is_ff = blk in m._dsl.update_ff
+            for obj_name, nodelist, op in type(m)._name_wr[ u.__name__ ]:
+              if obj_name[0][0] != "s": continue
+              if is_ff and isinstance( op, ast.MatMult ):
+                raise UpdateFFBlockWriteError( m, u, '@=', nodelist[0].lineno,
+                  f"Fix the '@=' assignment in this function, which is called by update_ff block {blk.__name__}, with '<<='" )
+              if not is_ff and isinstance( op, ast.LShift ):
+                raise UpdateBlockWriteError( m, u, '<<=', nodelist[0].lineno,
+                  f"Fix the '<<=' assignment in this function, which is called by update block {blk.__name__}, with '@='" )
+
             # Add all read/write of funcs to the outermost upblk
             s._dsl.all_upblk_reads [ blk ] |= m._dsl.func_reads[u]
             s._dsl.all_upblk_writes[ blk ] |= m._dsl.func_writes[u]
